@@ -116,9 +116,29 @@ impl<'tx> Tx<'tx> {
             true => TxLock::Rw(db.inner.file.lock()?),
             false => TxLock::Ro(db.inner.mmap_lock.read()?),
         };
-        let mut freelist = db.inner.freelist.lock()?.clone();
+        let (mut freelist, freelist_tx_id) = {
+            let shared = db.inner.freelist.lock()?;
+            let tx_id = db
+                .inner
+                .freelist_tx_id
+                .load(std::sync::atomic::Ordering::SeqCst);
+            (shared.clone(), tx_id)
+        };
         let mut meta = db.inner.meta()?;
         debug_assert!(meta.valid());
+        if writable && freelist_tx_id != meta.tx_id {
+            // The shared free list belongs to another header than the one this transaction
+            // builds on: a commit failed after its meta page had reached the file (for example
+            // the final sync reported an error). Start over from the free-list page of the
+            // current header. Those pages may still be in use by open readers, so they are
+            // handed out only once every reader older than this header is gone.
+            let data = db.inner.data.lock()?.clone();
+            let page = Page::from_buf(&data, meta.freelist_page, db.inner.pagesize);
+            freelist = crate::freelist::Freelist::new();
+            for page_id in page.freelist() {
+                freelist.free(meta.tx_id, *page_id);
+            }
+        }
         {
             let mut open_ro_txs = db.inner.open_ro_txs.lock().unwrap();
             if writable {
@@ -362,6 +382,10 @@ impl<'tx> TxInner<'tx> {
 
             let mut lock = self.db.inner.freelist.lock()?;
             *lock = freelist.inner.clone();
+            self.db
+                .inner
+                .freelist_tx_id
+                .store(self.meta.tx_id, std::sync::atomic::Ordering::SeqCst);
             Ok(())
         } else {
             unreachable!()
